@@ -15,6 +15,10 @@ type HashLiteral struct {
 
 	// Pairs stores the name/value sets of the hash-content
 	Pairs map[Expression]Expression
+
+	// Keys holds the keys of Pairs in the order they were written:
+	// a map has no order of its own.
+	Keys []Expression
 }
 
 func (hl *HashLiteral) expressionNode() {}
